@@ -12,7 +12,13 @@ def validate_encoded(string):
     raise gfapy.FormatError("{} is not a single-line string"
                             .format(repr(string)))
 
-validate_decoded = validate_encoded
+def validate_decoded(obj):
+  if not isinstance(obj, str):
+    raise gfapy.TypeError(
+      "the class {} is incompatible with the datatype\n"
+      .format(obj.__class__.__name__)+
+      "(accepted classes: str)")
+  validate_encoded(obj)
 
 def unsafe_encode(obj):
   return str(obj)
